@@ -6,6 +6,7 @@ case).  `μ` is an arbitrary non-zero value of mu_0.  Cylinder: the full port of
 (Model/Cylinder.lean) is shown to be `wrapCylinder` of its own masks and cores, hence consistent at
 every observer, and its inside mask is the closed geometric cylinder (Lemmas/KernCylinder.lean).
 -/
+import MagpyVerif.Lemmas.KernCylSeg
 import MagpyVerif.Lemmas.KernReal
 import MagpyVerif.Lemmas.KernelLiterals
 import MagpyVerif.Lemmas.KernAlgebra
@@ -273,5 +274,30 @@ example : bhjmTrimeshRow .J (fun r => r.faces) maskInsideTrimesh
 example : bhjmTrimeshRow .J (fun r => r.faces) maskInsideTrimesh
     { faces := unitTetra, obs := ⟨3 / 5, 3 / 5, 3 / 5⟩, pol := (⟨0, 0, 1⟩ : V3 ℝ) } = zero3 := by
   simp only [bhjmTrimeshRow, unitTetra_outside_in_box.2, Bool.false_eq_true, if_false]
+
+end MagpyVerif.C02
+
+/-! ### CylinderSegment: the ported `BHJM_cylinder_segment` (translated case functions, Model/CylSeg.lean;
+hand-written boundary sum and wrapper, Model/CylSegWrap.lean; tied to the code by the `kern` stream kinds
+`cylsegcase`, `cylsegblock`, `cylsegH`, `cylseg` and by the translator's sync check) -/
+namespace MagpyVerif.C02
+open MagpyVerif MagpyVerif.Kern MagpyVerif.Kern.CylSeg
+
+/-- C02 (CylinderSegment): for the whole ported wrapper — units of the outer radius, angle normalisation,
+inside / surface masks, spherical magnetization, the 26-case core, rotation back — with arbitrary special
+functions `S` (ellipkinc, ellipeinc, el3_angle are opaque) and any value μ ≠ 0 of mu_0:
+J and M are always returned and J = μ₀M; B is returned iff H is (`none` = NaN row: a boundary of the observer
+has one of the four case ids the dispatch table does not handle), and then B = μ₀H + J.  Every observer:
+inside, outside, on the surface (there B = H = J = M = 0). -/
+theorem cylseg_consistent (μ : ℝ) (hμ : μ ≠ 0) (S : SegSpecial) (x : V3 ℝ) (r1 r2 h p1 p2 : ℝ) (pol : V3 ℝ) :
+    letI := realNumX μ S
+    ∃ j m, bhjmCylSeg .J x r1 r2 h p1 p2 pol = some j ∧ bhjmCylSeg .M x r1 r2 h p1 p2 pol = some m ∧ j = vs μ m ∧
+      (bhjmCylSeg .B x r1 r2 h p1 p2 pol).isSome = (bhjmCylSeg .H x r1 r2 h p1 p2 pol).isSome ∧
+      ∀ b hh, bhjmCylSeg .B x r1 r2 h p1 p2 pol = some b → bhjmCylSeg .H x r1 r2 h p1 p2 pol = some hh →
+        b = vs μ hh + j :=
+  bhjmCylSeg_consistent μ hμ S x r1 r2 h p1 p2 pol
+
+-- non-vacuity: the hypothesis on μ holds for the model's mu_0, and the statement has no other hypothesis
+example : mu0R ≠ 0 := mu0R_pos.ne'
 
 end MagpyVerif.C02
